@@ -23,6 +23,10 @@ Definition arr_slice (s : list N) (off len : nat) : list N := firstn len (skipn 
 Definition arr_store (s : list N) (off : nat) (vs : list N) : list N :=
   firstn off s ++ vs ++ skipn (off + length vs) s.
 
+(* `a[lo..hi].copy_from_slice(&src)` (Rust panics unless length src = hi - lo: the theorems are stated for the
+   declared lengths) *)
+Definition arr_copy (s : list N) (lo hi : nat) (src : list N) : list N := firstn lo s ++ src ++ skipn hi s.
+
 (* value of a generated integer formula that cannot fail at its call sites *)
 Definition res_val (r : res N) : N := match r with Ok v => v | _ => 0 end.
 
